@@ -1011,6 +1011,14 @@ func (p *Parser) parseExpressionStmt() ast.Statement {
 
 	if p.peekTokenIs(token.RBRACES) {
 		p.nextToken() // skip "}}"
+		return result
+	}
+
+	// inside "{{ }}" an expression is followed by ";" or "}}",
+	// inside "@for( )" by ";" or ")"
+	if !p.peekTokenIs(token.SEMI, token.RPAREN) {
+		p.expectPeek(token.RBRACES)
+		return nil
 	}
 
 	return result
